@@ -446,3 +446,45 @@ V('c08-flavor-keyword', 'C08', 'C08.R5',
   (OBJ, "            mof_flavors.append('Restricted')", "            mof_flavors.append('NoSubclass')"), 'flavor-keyword')
 V('c08-pragma-raw', 'C08', 'C08.R4',
   (MOFF, "    \"\"\"pragmaParameter : stringValue\"\"\"\n    p[0] = _fixStringValue(p[1], p)", "    \"\"\"pragmaParameter : stringValue\"\"\"\n    p[0] = p[1][1:-1]"), 'p_pragmaParameter')
+
+# ---- C01 / C03 --------------------------------------------------------------
+XMLF = 'pywbem/_cim_xml.py'
+V('c01-reader-drops-attr', 'C01', 'C01.R3',
+  (TPF, "        class_origin = attrl.get('CLASSORIGIN', None)\n        propagated = self.unpack_boolean(attrl.get('PROPAGATED', 'false'))\n\n        qualifiers = self.list_of_matching(tup_tree, ('QUALIFIER',))\n\n        # It is not possible",
+        "        class_origin = None\n        propagated = self.unpack_boolean(attrl.get('PROPAGATED', 'false'))\n\n        qualifiers = self.list_of_matching(tup_tree, ('QUALIFIER',))\n\n        # It is not possible"),
+  'CLASSORIGIN')
+V('c01-reader-rejects-written', 'C01', 'C01.R2',
+  (TPF, "        self.check_node(tup_tree, 'METHOD', ('NAME',),\n                        ('TYPE', 'CLASSORIGIN', 'PROPAGATED'),", "        self.check_node(tup_tree, 'METHOD', ('NAME',),\n                        ('TYPE', 'CLASSORIGIN'),"),
+  'writer-not-read')
+V('c01-default-wrong', 'C01', 'C01.R7',
+  (TPF, "        tosubclass = self.unpack_boolean(attrl.get('TOSUBCLASS', 'true'))\n        toinstance = self.unpack_boolean(attrl.get('TOINSTANCE', 'false'))\n        translatable = self.unpack_boolean(attrl.get('TRANSLATABLE', 'false'))\n\n        try:\n            qual = CIMQualifier(",
+        "        tosubclass = self.unpack_boolean(attrl.get('TOSUBCLASS', 'false'))\n        toinstance = self.unpack_boolean(attrl.get('TOINSTANCE', 'false'))\n        translatable = self.unpack_boolean(attrl.get('TRANSLATABLE', 'false'))\n\n        try:\n            qual = CIMQualifier("),
+  'TOSUBCLASS')
+V('c01-null-entries', 'C01', 'C01.R6',
+  (TPF, "        if data is None:\n            return None\n\n        if cimtype == 'string':", "        if cimtype == 'string':"), 'null-entry')
+V('c01-slot-not-written', 'C01', 'C01.R4',
+  (OBJ, "            return _cim_xml.PROPERTY_ARRAY(\n                self.name,\n                self.type,\n                value_xml,\n                self.array_size,", "            return _cim_xml.PROPERTY_ARRAY(\n                self.name,\n                self.type,\n                value_xml,\n                None,"),
+  'array_size')
+V('c01-type-table', 'C01', 'C01.R5',
+  (TYP, "    'sint64': Sint64,\n", "    'sint64': Uint64,\n"), 'cimtype')
+V('c01-numeric-pattern', 'C01', 'C01.R5',
+  (TPF, "NUMERIC_CIMTYPE_PATTERN = re.compile(r'^([su]int(8|16|32|64)|real(32|64))$')", "NUMERIC_CIMTYPE_PATTERN = re.compile(r'^([su]int(8|16|32)|real(32|64))$')"), 'numeric-pattern')
+V('c03-attr-not-in-dtd', 'C03', 'C03.R1',
+  (XMLF, "        CIMElement.__init__(self, 'PROPERTY')\n\n        self.setName(name)\n        self.setAttribute('TYPE', type_)\n\n        self.setOptionalAttribute('CLASSORIGIN', class_origin)",
+         "        CIMElement.__init__(self, 'PROPERTY')\n\n        self.setName(name)\n        self.setAttribute('TYPE', type_)\n\n        self.setOptionalAttribute('CLASS_ORIGIN', class_origin)"),
+  'undeclared-attribute')
+V('c03-required-conditional', 'C03', 'C03.R1',
+  (XMLF, "        CIMElement.__init__(self, 'INSTANCENAME')\n        self.setAttribute('CLASSNAME', classname)", "        CIMElement.__init__(self, 'INSTANCENAME')\n        self.setOptionalAttribute('CLASSNAME', classname)"),
+  'required-missing')
+V('c03-element-name', 'C03', 'C03.R2',
+  (XMLF, "        CIMElement.__init__(self, 'VALUE.NULL')", "        CIMElement.__init__(self, 'VALUE.NIL')"), 'unknown-element')
+V('c03-header-mismatch', 'C03', 'C03.R4',
+  (OPSF, "            ('CIMOperation', 'MethodCall'),\n            ('CIMMethod', methodname),\n            ('CIMObject', get_cimobject_header(namespace)),", "            ('CIMOperation', 'MethodCall'),\n            ('CIMMethod', methodname.lower()),\n            ('CIMObject', get_cimobject_header(namespace)),"),
+  'method-mismatch')
+V('c03-type-chains', 'C03', 'C03.R5',
+  (OPSF, "            if isinstance(obj, (CIMType, bool, str)):\n                # This includes CIMDateTime", "            if isinstance(obj, (CIMType, str)):\n                # This includes CIMDateTime"),
+  'type-chains')
+V('c03-bool-enum', 'C03', 'C03.R1',
+  (XMLF, "        CIMElement.__init__(self, 'PROPERTY')\n\n        self.setName(name)\n        self.setAttribute('TYPE', type_)\n\n        self.setOptionalAttribute('CLASSORIGIN', class_origin)\n\n        if propagated is not None:\n            self.setAttribute('PROPAGATED', str(propagated).lower())",
+         "        CIMElement.__init__(self, 'PROPERTY')\n\n        self.setName(name)\n        self.setAttribute('TYPE', type_)\n\n        self.setOptionalAttribute('CLASSORIGIN', class_origin)\n\n        if propagated is not None:\n            self.setAttribute('PROPAGATED', 'yes')"),
+  'enum-value')
